@@ -430,7 +430,7 @@ class C19(CompSpec):
         "{ } ( ) < > ! ` %, empty arguments and non-ASCII, rendered with shlex.join, with hand-made double-quoted/escaped spelling, and with irregular inter-token whitespace; names over "
         "[A-Za-z0-9][A-Za-z0-9_.-]*; all append_job_name / append_output_dir combinations; exit codes 0, 1, 2, 77, 126, 127, 128, 200, 255; run through the real submit-jobs -> sbatch -> "
         "jade-internal run-jobs path; the probe reports argv / env at the process boundary; oracle: argv == shlex.split(command) + documented extras, JADE_JOB_NAME / JADE_RUNTIME_OUTPUT, "
-        "own .o/.e files with exactly the job's tokens, row with name, real exit code, status finished and the HPC id of the node that ran it; non-trivial = run in which >= 3 jobs with "
+        "own .o/.e files with exactly the job's tokens, row with name, real exit code, status finished and the HPC id of the node that ran it; in 30% of the runs the submission is started from inside another JADE job (JADE_JOB_NAME / JADE_RUNTIME_OUTPUT / JADE_SUBMISSION_GROUP of the outer job inherited by every process, batches included); non-trivial = run in which >= 3 jobs with "
         "at least one quoting character were checked; distinct by schedule signature and command set"
     )
 
@@ -461,7 +461,8 @@ class C19(CompSpec):
         ok = [r for r in results if not r.get("error")]
         return {"job_launches_checked": total(ok, "c19_checked"), "renderings": hist(j["style"] for t in tasks for j in t["args"]["scen"]["jobs"]),
                 "exit_codes": hist(j["rc"] for t in tasks for j in t["args"]["scen"]["jobs"]),
-                "append_flag_combinations": hist(f"{j['append_job_name']}/{j['append_output_dir']}" for t in tasks for j in t["args"]["scen"]["jobs"])}
+                "append_flag_combinations": hist(f"{j['append_job_name']}/{j['append_output_dir']}" for t in tasks for j in t["args"]["scen"]["jobs"]),
+                "runs_started_inside_another_jade_job_inherited_JADE_variables": sum(1 for t in tasks if t["args"]["scen"].get("inherit_env"))}
 
     def floors(self, cov):
         if cov.get("job_launches_checked", 0) < 500:
